@@ -54,6 +54,25 @@ def model(ex, path, cal, recv, args, node, st):
     if d.endswith("Arguments::<'a>::from_str") or d.endswith("Arguments::from_str") or d.endswith("::from_str_nonconst"):
         if a0 and a0[0] == "lit":
             return _val(st, ("fmt", (("lit", a0[1]),), ()))
+    if d == "std::io::Read::read_exact" and len(allargs) == 2:
+        buf = allargs[1]
+        n = None
+        if buf[0] == "app" and buf[1] == "repeat_array" and is_lit(buf[2][1]):
+            import re as _re
+            m = _re.match(r"\[u8; (\d+)\]", str(buf[2][1][1]))
+            n = int(m.group(1)) if m else None
+        sym = ("sym", next(ex.counter), "bytes_read")
+        r = ("fall", next(ex.counter), "result", "read_exact")
+        ex.effect(st, "read", (allargs[0], lit(n), sym), result=r, node=node)
+        # the buffer local now holds the bytes read
+        from .facts import peel as _peel
+        argn = node["args"][-1] if node.get("args") else None
+        a = _peel(argn) if argn else {}
+        while a.get("k") in ("AddrOf",):
+            a = _peel(a["e"])
+        if a.get("k") == "Path" and a["res"].get("k") == "Local":
+            st.env[a["res"]["lid"]] = sym
+        return _val(st, r)
     # ---- Try / residuals (outside the `?` desugaring they are rare)
     if d == "std::ops::FromResidual::from_residual":
         return _val(st, a0)
@@ -186,6 +205,10 @@ def _prim_of(d):
 
 
 def tlen(t):
+    if t[0] == "app" and t[1] == "map_of":
+        return tlen(t[2][0])
+    if t[0] == "iter":
+        return tlen(t[1])
     if t[0] == "app" and t[1] == "array":
         return lit(len(t[2]))
     if t[0] == "app" and t[1] == "vec_of" and t[2][0][0] == "app" and t[2][0][1] == "array":
@@ -319,6 +342,8 @@ def drive(ex, name, it, args, node, st):
             out_elems.append(v)
         if ok and len(cur.eff) == n_eff:
             return [(cur, ("val", app("array", *out_elems)))]
+    if name == "collect" and not flags and not is_result_ty(ex, node):
+        return [(st, ("val", base if orient == "fwd" else app("reversed", base)))]
     if name == "collect" and base[0] == "app" and base[1] == "repeat" and len(flags) == 1 and isinstance(flags[0], tuple) and flags[0][0] == "take":
         return [(st, ("val", app("vec_repeat", base[2][0], flags[0][1])))]
     if (name == "collect" and len(flags) == 1 and isinstance(flags[0], tuple) and flags[0][0] == "map" and base[0] == "ctor"
@@ -423,6 +448,10 @@ def drive(ex, name, it, args, node, st):
                 nxt.append((s, ("payload", v)))
                 elem_fail.append({"eff": list(s.eff), "out": ("val", ("err", ("errof", v)))})
         alive = nxt
+    if (name == "collect" and coll_kind is None and len(alive) == 1 and not alive[0][0].eff and not exits and pipeline
+            and all(x == "map" for x in pipeline)):
+        # pure element-wise mapping: keep it as a term (the mapped sequence has the base's length and order)
+        return [(st, ("val", app("map_of", ("iter", base, orient, ()), alive[0][1], elem)))]
     paths = [{"eff": s.eff, "out": ("val", v)} for s, v in alive]
     e = ex.effect(st, "foreach", (it,), node=node, loop=loop_id, elem=elem, paths=paths, exits=exits,
                   results=[v for _, v in alive], driver=name, pipeline=tuple(pipeline), elem_fail=elem_fail, filtered=filtered)
